@@ -272,6 +272,12 @@ func cmdRun(args []string) {
 	totalPaths, totalDec := 0, 0
 	q := map[string]int{}
 	solverS := 0.0
+	for _, r := range runs {
+		if pkg.Func(r.Entry) == nil {
+			fmt.Fprintln(os.Stderr, "ENGINE: no harness function", r.Entry)
+			os.Exit(2)
+		}
+	}
 	for k, r := range runs {
 		cfg := &interp.Config{Prog: prog, Pkg: pkg, Entry: r.Entry, Args: r.Args, Workers: *workers, Solver: *solver,
 			NoPanic: !r.AllowPanic, MaxPaths: r.MaxPaths, MaxSamples: 6, SampleEvery: 13 + seed%7}
@@ -369,7 +375,11 @@ func cmdRun(args []string) {
 					violations = append(violations, fmt.Sprintf("VIOLATION property=%s replay=%s", id, path))
 					fmt.Printf("  counterexample %s %s: %s inputs=%v msg=%q\n", c.Kind, c.Label, c.Harness, c.Inputs, c.Msg)
 				} else {
-					inconclusive = append(inconclusive, fmt.Sprintf("SPURIOUS: %s %s did not reproduce natively (inputs %v): encoding or stub mismatch", c.Kind, c.Label, c.Inputs))
+					got := "no result"
+					if o != nil {
+						got = fmt.Sprintf("outcome=%s failed=%v panic=%q", o.Outcome, o.Failed, o.Panic)
+					}
+					inconclusive = append(inconclusive, fmt.Sprintf("SPURIOUS: %s %s in %s%v did not reproduce natively (inputs %v, msg %q, stack %v; native %s): encoding or stub mismatch", c.Kind, c.Label, c.Harness, c.Args, c.Inputs, c.Msg, c.Stack, got))
 				}
 				continue
 			}
